@@ -18,11 +18,11 @@ import (
 // C13 — messages survive any compression setting; reader checkpoints resume exactly (DESIGN §5 C13).
 
 type c13Spec struct {
-	Seed    uint64   `json:"seed"`
-	Pattern string   `json:"pattern"`
-	Comp    lib.Comp `json:"comp"`
-	Save    string   `json:"save"` // every | every2 | every7 | once-each | none
-	PopEvery int     `json:"popEvery"` // PopCheckpoint is only called at every n-th message boundary (a consumer whose ShouldSave answers false in between)
+	Seed     uint64   `json:"seed"`
+	Pattern  string   `json:"pattern"`
+	Comp     lib.Comp `json:"comp"`
+	Save     string   `json:"save"`     // every | every2 | every7 | once-each | none
+	PopEvery int      `json:"popEvery"` // PopCheckpoint is only called at every n-th message boundary (a consumer whose ShouldSave answers false in between)
 }
 
 var c13Sizes = []int{0, 1, 127, 128, 16383, 16384, 32764, 32765, 32766, 32767, 32768, 32769, 32770, 32771, 65535, 65536, 65537, 1*lib.MB - 1, 1 * lib.MB, 1*lib.MB + 1}
@@ -221,6 +221,17 @@ func c13Run(c lib.Case, env *lib.Env) lib.Result {
 		next int
 		enc  []byte
 		lag  bool
+		held *wire.MessageReaderCheckpoint
+	}
+	// hold: the consumer keeps the popped checkpoints and serializes them only after the pass (odd cases)
+	hold := c.ID%2 == 1
+	encode := func(cp *wire.MessageReaderCheckpoint) []byte {
+		var gb bytes.Buffer
+		if err := gob.NewEncoder(&gb).Encode(cp); err != nil {
+			res.Violate("checkpoint-not-gob-encodable", desc, err.Error())
+			return nil
+		}
+		return gb.Bytes()
 	}
 	// one pass per save position for "once-each" (every boundary of sequences <= 64 messages), else a single pass
 	var passes [][]bool
@@ -268,12 +279,11 @@ func c13Run(c lib.Case, env *lib.Env) lib.Result {
 				cp = rctx.PopCheckpoint()
 			}
 			if cp != nil {
-				var gb bytes.Buffer
-				if err := gob.NewEncoder(&gb).Encode(cp); err != nil {
-					res.Violate("checkpoint-not-gob-encodable", desc, err.Error())
-				} else {
-					lag := cp.SourceCheckpoint != nil && cp.SourceCheckpoint.Offset < cp.Offset
-					cps = append(cps, cpRec{next: i, enc: gb.Bytes(), lag: lag})
+				lag := cp.SourceCheckpoint != nil && cp.SourceCheckpoint.Offset < cp.Offset
+				if hold {
+					cps = append(cps, cpRec{next: i, lag: lag, held: cp})
+				} else if enc := encode(cp); enc != nil {
+					cps = append(cps, cpRec{next: i, enc: enc, lag: lag})
 				}
 			}
 			if i == n {
@@ -294,6 +304,64 @@ func c13Run(c lib.Case, env *lib.Env) lib.Result {
 		if err := rctx.ReadMessage(extra); !isEOF(err) {
 			res.Violate("no-eof-after-last-message", desc, fmt.Sprintf("pass %d: ReadMessage after the last message returned %v", pi, err))
 			return res
+		}
+		for k := range cps {
+			if cps[k].held != nil {
+				cps[k].enc = encode(cps[k].held)
+				cps[k].held = nil
+				res.Add("checkpoints_serialized_after_the_pass", 1)
+			}
+		}
+		// the source that has just been read to its end is resumed again (new reader over the SAME source object):
+		// from nothing, and from the first / middle / last checkpoint of this pass
+		if pi == len(passes)-1 {
+			picks := []int{-1}
+			if len(cps) > 0 {
+				picks = append(picks, len(cps)-1)
+				if len(stream) < 8*lib.MB {
+					picks = append(picks, 0, len(cps)/2)
+				}
+			}
+			for _, k := range picks {
+				from := 0
+				var mc *wire.MessageReaderCheckpoint
+				if k >= 0 {
+					if cps[k].enc == nil {
+						continue
+					}
+					mc = &wire.MessageReaderCheckpoint{}
+					if err := gob.NewDecoder(bytes.NewReader(cps[k].enc)).Decode(mc); err != nil {
+						continue
+					}
+					from = cps[k].next
+				}
+				again := wire.NewReadContext(rctx.GetSource())
+				if err := again.Resume(mc); err != nil {
+					res.Violate("reused-source:resume-error", desc, fmt.Sprintf("source read to its end, resumed before message %d of %d (nil checkpoint: %v): %v", from, n, mc == nil, err))
+					continue
+				}
+				okAgain := true
+				ru := &reusedMsgs{}
+				for i := from; i < n; i++ {
+					got := ru.like(msgs[i])
+					if err := again.ReadMessage(got); err != nil {
+						res.Violate("reused-source:read-error", desc, fmt.Sprintf("source read to its end, resumed before message %d: reading message %d of %d: %v", from, i, n, err))
+						okAgain = false
+						break
+					}
+					if !proto.Equal(got, msgs[i]) {
+						res.Violate("reused-source:read-mismatch", desc, fmt.Sprintf("source read to its end, resumed before message %d: message %d of %d differs", from, i, n))
+						okAgain = false
+						break
+					}
+				}
+				if okAgain {
+					if err := again.ReadMessage(&pwr.SyncOp{}); !isEOF(err) {
+						res.Violate("reused-source:no-eof", desc, fmt.Sprintf("resumed before message %d: after the last message got %v", from, err))
+					}
+				}
+				res.Add("resumes_of_a_source_already_read_to_its_end", 1)
+			}
 		}
 	}
 	res.Add("checkpoints_popped", int64(len(cps)))
@@ -367,7 +435,7 @@ func init() {
 	lib.Register(&lib.Property{
 		ID:          "C13",
 		Level:       "exploration",
-		Rule:        "message sequences (SyncOp/SyncHeader/Control/BlockHash; payload sizes from {0,1,127,128,16383,16384,32764..32771,65535..65537,1M-1,1M,1M+1,4M,4M+1}; patterns boundary-mix, large-then-small, growing across every power of two, all-empty, many-small, huge, types) written through wire.WriteContext + pwr.CompressWire under every registered setting (NONE; GZIP -2..9; BROTLI 0..11) and read back through DecompressWire + ReadContext; save schedules every / every 2nd / every 7th message and, for sequences <= 64 messages, one pass per message boundary with a single save request there; every popped checkpoint is gob round-tripped and resumed in a brand-new reader over the same bytes and must deliver exactly the remaining messages then EOF; one >= 44 MiB sequence per slow-checkpointing class. ASan pass over the brotli settings (C encoder). distinct = distinct (pattern, setting, save schedule)",
+		Rule:        "message sequences (SyncOp/SyncHeader/Control/BlockHash; payload sizes from {0,1,127,128,16383,16384,32764..32771,65535..65537,1M-1,1M,1M+1,4M,4M+1}; patterns boundary-mix, large-then-small, growing across every power of two, all-empty, many-small, huge, types) written through wire.WriteContext + pwr.CompressWire under every registered setting (NONE; GZIP -2..9; BROTLI 0..11) and read back through DecompressWire + ReadContext; save schedules every / every 2nd / every 7th message and, for sequences <= 64 messages, one pass per message boundary with a single save request there; every popped checkpoint is gob round-tripped and resumed in a brand-new reader over the same bytes and must deliver exactly the remaining messages then EOF (in odd cases the popped checkpoint objects are held and only serialized after the whole pass); the source that was read to its end is then resumed again through a new reader - from nil and from the first/middle/last checkpoint - and must deliver the same; one >= 44 MiB sequence per slow-checkpointing class. ASan pass over the brotli settings (C encoder). distinct = distinct (pattern, setting, save schedule)",
 		Assumptions: []string{"WantSave/PopCheckpoint are driven in the patcher's pattern (request, pop, read)", "compressed sources only checkpoint at block boundaries: a sequence that pops no checkpoint is counted, not failed, except on the purpose-sized sequences"},
 		Flavors:     func(tier string) []string { return []string{"plain", "asan"} },
 		Cases:       c13Cases,
